@@ -83,10 +83,12 @@ def cases(draw, tier="quick"):
             next(k for k in kids if k["type"] == "dir")["children"] += pair     # one level down
         else:
             kids += pair
-    root = dict(type="dir", name=b"", children=kids, sort=draw(st.booleans()), mode=0o755)
+    # stored order: listings that are not sorted keep an arbitrary order, so members of a duplicate pair need not be neighbours
+    kids = draw(st.permutations(kids))
+    root = dict(type="dir", name=b"", children=list(kids), sort=draw(st.booleans()), mode=0o755)
     flags = draw(st.lists(st.sampled_from(["-C", "-O", "-T", "-X", "-Z", "-q", "-D", "-S", "-F", "-L", "-E"]), unique=True, max_size=6))
     return dict(root=root, flags=flags, upath=draw(st.sampled_from([b"/", b"/", b"/", b"/d", b"/evil", b"/x"])),
-                rstyle=draw(st.sampled_from(["abs", "rel", "nested", "abs_existing"])), data_comp=draw(st.booleans()))
+                rstyle=draw(st.sampled_from(["abs", "abs", "rel", "rel", "nested", "abs_existing", "is_file", "dangling_link", "link_to_file"])), data_comp=draw(st.booleans()))
 
 
 def resolve_targets(n, jail):
@@ -109,6 +111,8 @@ def snapshot(jail, exclude):
         dn[:] = [d for d in dn if os.path.join(dp, d) != ex]
         for name in dn + fn + ([b"."] if dp == jb else []):
             p = os.path.join(dp, name)
+            if p == ex:
+                continue    # the unpack root itself (it may be a file or a symlink that is in the way)
             try:
                 s = os.lstat(p)
             except OSError:
@@ -193,6 +197,17 @@ def check_case(case, opts):
         elif rs == "rel":
             R = os.path.join(cwd, "R")
             Rarg = "R"
+        elif rs in ("is_file", "dangling_link", "link_to_file"):
+            # the unpack root exists but cannot be entered: nothing may be unpacked anywhere else instead
+            R = os.path.join(cwd, "R")
+            Rarg = "R"
+            if rs == "is_file":
+                with open(R, "wb") as fh:
+                    fh.write(b"not a directory")
+            elif rs == "dangling_link":
+                os.symlink("nowhere", R)
+            else:
+                os.symlink("../sentinel_file", R)
         else:
             R = os.path.join(J, "deep", "er", "R")
             Rarg = R
@@ -259,7 +274,7 @@ def check_case(case, opts):
                               and not (c["type"] == "dir" and "-E" in case["flags"])]
                 if insane_top and all(len(n) <= 255 for n in insane_top):
                     raise Violation("%s skipped entries with illegal names without reporting them" % what, None, sig="silent-skip")
-        created = os.path.exists(R) and len(os.listdir(R)) > 0
+        created = os.path.isdir(R) and len(os.listdir(R)) > 0
         return CaseInfo(bool((hostile or dup or any(c["type"] == "slink" for c in root["children"])) and (created or r.err.strip())), classes)
 
 
